@@ -29,7 +29,7 @@ Verdict(i) == LET r == Trace[i]   k == CaseOf(r) IN
               ELSE IF ~GuardOK(k) THEN PrintT(<<"REJECT", r.id, "UNGUARDED">>)
               ELSE IF \E a \in Allowed(k) : Matches(r.obs, a) THEN TRUE
               ELSE PrintT(<<"REJECT", r.id, Summary(Allowed(k)) \o " | " \o
-                                            (IF Matches(r.obs, ImplOutcome(k)) THEN DeviationClass(k) ELSE "none")>>)
+                                            (IF Matches(r.obs, ImplOutcome(k, {})) THEN DeviationClass(k, {}) ELSE "none")>>)
 Init == l = 0
 Next == /\ l < Len(Trace)
         /\ l' = l + 1
